@@ -4,7 +4,7 @@ from __future__ import annotations
 import copy
 from typing import Any, Dict, List
 
-from . import from_tlc, gen_asgi, gen_h1, gen_h2, gen_limits, gen_proto, gen_shutdown, gen_worker, gen_ws
+from . import from_tlc, gen_asgi, gen_h1, gen_h2, gen_limits, gen_proto, gen_shutdown, gen_worker, gen_ws, gen_wsgi
 
 COMMON_ASSUMPTIONS = [
     "h11/h2/wsproto/priority libraries behave as documented (their server roles are exercised, not re-verified)",
@@ -40,7 +40,11 @@ PROPS: Dict[str, Dict[str, Any]] = {
     "C02": {"monitor": "C02", "generators": [gen_h1.gen_c02, gen_h2.gen_h2_basic, sampled(gen_h1.gen_c06, 400), gen_h2.gen_flow] + H1_GEN, "design": H1_DESIGN},
     "C03": {"monitor": "C03", "generators": [gen_h1.gen_c03, gen_h2.gen_h2_faults] + H1_GEN, "design": H1_DESIGN,
             "deviations": [_dev("DevDoubleLog", "AtMostOneAccess"), _dev("DevParked", "Released")]},
-    "C05": {"monitor": "C05", "generators": [gen_h1.gen_c05, gen_h2.gen_h2_faults] + H1_GEN, "design": H1_DESIGN},
+    "C05": {"parts": [
+        {"monitor": "C05", "generators": [gen_h1.gen_c05, gen_h2.gen_h2_faults] + H1_GEN, "design": H1_DESIGN},
+        # a WSGI application is an application too: the adapter must hand its failure on unfinished
+        {"monitor": "C05W", "generators": [gen_wsgi.gen_c05w], "runner": "wsgi", "workers": ["wsgi"], "selftest": "C05W"},
+    ]},
     "C06": {"monitor": "C06", "generators": [gen_h1.gen_c06] + H1_GEN, "design": [dict(H1_DESIGN[0], coverage=True)] + H1_DESIGN[1:],
             "deviations": [_dev("DevDiscPutBlocks", "Released")]},
     "C07": {"monitor": "C07", "generators": [gen_h1.gen_c07, gen_h2.gen_h2_faults, sampled(gen_h1.gen_c06, 400)] + H1_GEN, "design": H1_DESIGN,
